@@ -85,6 +85,31 @@ class RsxJob:
         return self.id
 
 
+class ScanJob:
+    """static inventory of /repo/src through rsx's parser: discharges the syntactic assumptions that the
+    solver-based obligations rest on (derive(Clone) is a deep copy, no unencoded unsafe site, ...).
+    A failed scan is 'error' (exit 2: an assumption of the encoding no longer holds), never a VIOLATION."""
+    kind = "scan"
+
+    def __init__(self, rule, bounds, tier="q", features=()):
+        self.rule = rule
+        self.bounds = bounds
+        self.tier = tier
+        self.core = True
+        self.cost = 1
+        self.timeout = 120
+        self.features = tuple(features)
+        self.encodes = ("src/**/*.rs (item inventory: structs, derives, impls, unsafe sites)",)
+
+    @property
+    def id(self):
+        return "scan:" + self.rule
+
+    @property
+    def name(self):
+        return self.id
+
+
 # --------------------------------------------------------------------------
 # helpers
 
@@ -415,6 +440,9 @@ def run_property(prop, tier, seed, scratch, a):
     def runner(job):
         if job.kind == "kani":
             r, out = run_kani(job, scratch)
+        elif job.kind == "scan":
+            from scanrules import run_scan
+            r, out = run_scan(job)
         else:
             from rsxdrv import run_rsx
             r, out = run_rsx(job, scratch, seed)
@@ -424,7 +452,7 @@ def run_property(prop, tier, seed, scratch, a):
         return job, r
 
     # rsx needs its binary
-    if any(j.kind == "rsx" for j in jobs):
+    if any(j.kind in ("rsx", "scan") for j in jobs):
         from rsxdrv import ensure_built
         err = ensure_built()
         if err:
@@ -530,6 +558,11 @@ def build_evidence(prop, tier, seed, results, violations, known_lines, inconclus
             nontrivial += 1 if (r.get("properties_checked") or 0) > 0 else 0
             solver_s += r.get("solver_s") or 0.0
             stubs.update(r.get("stubs") or [])
+        elif r.get("engine") == "scan":
+            states += 1
+            transitions += r.get("items", 0)
+            queries += r.get("items", 0)
+            nontrivial += 1
         else:
             states += r.get("paths", 0)
             transitions += r.get("obligations", 0)
@@ -542,7 +575,7 @@ def build_evidence(prop, tier, seed, results, violations, known_lines, inconclus
                                                      "properties_checked", "covers_satisfied", "paths",
                                                      "obligations", "allowed_panics", "detail", "note",
                                                      "failed_checks", "replay", "sample_obligation", "core",
-                                                     "validated", "sat", "cvc5_checked", "stubs", "mode")}
+                                                     "validated", "sat", "cvc5_checked", "stubs", "mode", "items")}
         samples.append(s)
     info = registry.PROPS.get(prop, {})
     ev = {
